@@ -157,8 +157,9 @@ type pctSched struct {
 
 func newPCT(rng *rand.Rand, depth, maxSteps int) *pctSched {
 	s := &pctSched{rng: rng, prio: map[string]int{}, changes: map[int]bool{}, low: 0}
+	horizon := []int{15, 30, 60, maxSteps}[rng.Intn(4)]
 	for i := 0; i < depth-1; i++ {
-		s.changes[rng.Intn(maxSteps)] = true
+		s.changes[rng.Intn(horizon)] = true
 	}
 	return s
 }
@@ -173,6 +174,13 @@ func actorOf(key string) string {
 }
 
 func (s *pctSched) Pick(step int, opts []string, internal []bool) int {
+	// time passes only when nothing else can run, or (rarely) by chance
+	if len(opts) > 1 && opts[len(opts)-1] == "advance" {
+		if s.rng.Intn(20) == 0 {
+			return len(opts) - 1
+		}
+		opts = opts[:len(opts)-1]
+	}
 	best, bestP := -1, -1<<30
 	for i, o := range opts {
 		a := actorOf(o)
@@ -193,6 +201,66 @@ func (s *pctSched) Pick(step int, opts []string, internal []bool) int {
 		s.prio[actorOf(opts[best])] = s.low
 	}
 	return best
+}
+
+// freezeSched: random scheduling, but now and then one parked actor is frozen
+// (not scheduled) for as long as anything else can run. This reaches the
+// schedules in which one goroutine sits between two of its steps while whole
+// commands and requests run past it.
+type freezeSched struct {
+	rng    *rand.Rand
+	frozen map[string]int // actor -> step at which it was frozen
+	p      float64
+	max    int
+}
+
+func newFreeze(rng *rand.Rand) *freezeSched {
+	return &freezeSched{rng: rng, frozen: map[string]int{}, p: 0.05 + rng.Float64()*0.25, max: 1 + rng.Intn(2)}
+}
+
+func (s *freezeSched) Pick(step int, opts []string, internal []bool) int {
+	// maybe freeze one more internal actor
+	if len(s.frozen) < s.max && s.rng.Float64() < s.p {
+		var cands []string
+		for i, o := range opts {
+			if internal[i] {
+				if _, ok := s.frozen[actorOf(o)]; !ok {
+					cands = append(cands, actorOf(o))
+				}
+			}
+		}
+		if len(cands) > 0 {
+			s.frozen[cands[s.rng.Intn(len(cands))]] = step
+		}
+	}
+	var free []int
+	for i, o := range opts {
+		if _, ok := s.frozen[actorOf(o)]; !ok && o != "advance" {
+			free = append(free, i)
+		}
+	}
+	if len(free) > 0 {
+		return free[s.rng.Intn(len(free))]
+	}
+	// nothing else can run: sometimes let time pass (if allowed), else thaw the oldest
+	for i, o := range opts {
+		if o == "advance" && s.rng.Intn(3) > 0 {
+			return i
+		}
+	}
+	oldest, at := "", 1<<30
+	for a, st := range s.frozen {
+		if st < at {
+			oldest, at = a, st
+		}
+	}
+	delete(s.frozen, oldest)
+	for i, o := range opts {
+		if actorOf(o) == oldest {
+			return i
+		}
+	}
+	return s.rng.Intn(len(opts))
 }
 
 // replaySched follows a recorded decision list; on a miss it falls back.
